@@ -1038,13 +1038,61 @@ fn any() -> AnyCbor {
     AnyCbor::from_encode(0u8)
 }
 
-fn ls_build(kind: &str, _ctx: &Ctx) -> ls::Message {
+/// A result the typed helper named by `hint` can decode (built with the independent CBOR kit from the
+/// helper's documented result type: empty maps / lists, small numbers); any other caller gets `0`.
+/// What matters to C23 is that the helper runs to its end; the codecs of the result types are C22's.
+fn ls_result(hint: &str) -> AnyCbor {
+    use pvkit::cborx::{array, bytes, map, null, text, uint, write, Node};
+    let one = |n: Node| array(vec![n]);
+    let m = || map(vec![]);
+    let l = || array(vec![]);
+    let node = match hint {
+        "get_chain_point" | "get_cbor" => l(),
+        "get_system_start" => array(vec![uint(2020), uint(1), uint(0)]),
+        "get_chain_block_no" => array(vec![uint(1), uint(5)]),
+        "get_block_epoch_number" => one(uint(5)),
+        "get_utxo_by_address" | "get_utxo_by_txin" | "get_utxo_whole" | "get_stake_pool_params" | "get_pool_distr" | "get_pool_distr_v2"
+        | "get_non_myopic_member_rewards" | "get_stake_deleg_deposits" | "get_drep_state" | "get_drep_stake_distr"
+        | "get_filtered_vote_delegatees" | "get_spo_stake_distr" | "get_stake_distribution" | "get_stake_distribution_v2"
+        | "get_proposed_pparams_updates" => one(m()),
+        "get_proposals" | "get_future_protocol_params" => one(l()),
+        "get_big_ledger_snapshot" | "get_ledger_peer_snapshot" | "get_dreps_delegations" => one(uint(0)),
+        "get_account_state" => one(array(vec![uint(1), uint(2)])),
+        "get_filtered_delegations_rewards" => one(array(vec![m(), m()])),
+        "get_committee_members_state" => one(array(vec![m(), l(), uint(1)])),
+        "get_stake_snapshots" => one(array(vec![m(), uint(0), uint(0), uint(0)])),
+        "get_pool_state" => one(array(vec![m(), m(), m(), m()])),
+        "get_constitution" => one(array(vec![array(vec![text("u"), bytes(&[7; 32])]), null()])),
+        _ => uint(0),
+    };
+    AnyCbor::from_raw_bytes(write(&node))
+}
+
+/// helpers for which `ls_result` is decodable (their whole body runs in the harness); the remaining four
+/// (`get_current_pparams`, `get_genesis_config`, `get_gov_state`, `get_ratify_state`) end in InvalidCbor
+pub const LS_DECODABLE: &[&str] = &[
+    "query", "get_chain_point", "get_current_era", "get_system_start", "get_chain_block_no", "get_cbor", "get_block_epoch_number",
+    "get_utxo_by_address", "get_utxo_by_txin", "get_utxo_whole", "get_stake_pool_params", "get_pool_distr", "get_pool_distr_v2",
+    "get_non_myopic_member_rewards", "get_stake_deleg_deposits", "get_drep_state", "get_drep_stake_distr", "get_filtered_vote_delegatees",
+    "get_spo_stake_distr", "get_stake_distribution", "get_stake_distribution_v2", "get_proposed_pparams_updates", "get_proposals",
+    "get_future_protocol_params", "get_big_ledger_snapshot", "get_ledger_peer_snapshot", "get_dreps_delegations", "get_account_state",
+    "get_filtered_delegations_rewards", "get_committee_members_state", "get_stake_snapshots", "get_pool_state", "get_constitution",
+];
+
+static LS_DECODED: std::sync::Mutex<BTreeSet<&'static str>> = std::sync::Mutex::new(BTreeSet::new());
+
+/// typed helpers that decoded the harness' result at least once in this run
+pub fn ls_decoded() -> Vec<&'static str> {
+    LS_DECODED.lock().unwrap().iter().copied().collect()
+}
+
+fn ls_build(kind: &str, ctx: &Ctx) -> ls::Message {
     match kind {
         "Acquire" => ls::Message::Acquire(None),
         "Failure" => ls::Message::Failure(ls::AcquireFailure::PointTooOld),
         "Acquired" => ls::Message::Acquired,
         "Query" => ls::Message::Query(any()),
-        "Result" => ls::Message::Result(any()),
+        "Result" => ls::Message::Result(ls_result(ctx.hint)),
         "ReAcquire" => ls::Message::ReAcquire(None),
         "Release" => ls::Message::Release,
         "Done" => ls::Message::Done,
@@ -1085,7 +1133,12 @@ fn ls_acq<T>(r: Result<T, ls::ClientError>) -> OpOut {
 }
 
 /// a typed query reports a result it cannot decode as an error value after the (legal) exchange
-fn ls_typed<T>(r: Result<T, ls::ClientError>) -> OpOut {
+fn ls_typed<T>(name: &str, r: Result<T, ls::ClientError>) -> OpOut {
+    if r.is_ok() {
+        if let Some(n) = LS_DECODABLE.iter().find(|n| **n == name) {
+            LS_DECODED.lock().unwrap().insert(n);
+        }
+    }
     match r {
         Err(ls::ClientError::InvalidCbor(_)) => OpOut::Accepted,
         r => out(r),
@@ -1190,43 +1243,43 @@ impl Agent for LsClient {
             "send_query" => out(self.0.send_query(any()).await),
             "recv_while_querying" => out(self.0.recv_while_querying().await),
             "query_any" => out(self.0.query_any(any()).await),
-            "query" => ls_typed(self.0.query::<u8, u8>(0u8).await),
-            "get_chain_point" => ls_typed(q::get_chain_point(&mut self.0).await),
-            "get_current_era" => ls_typed(q::get_current_era(&mut self.0).await),
-            "get_system_start" => ls_typed(q::get_system_start(&mut self.0).await),
-            "get_chain_block_no" => ls_typed(q::get_chain_block_no(&mut self.0).await),
-            "get_cbor" => ls_typed(q::get_cbor(&mut self.0, ERA, q::BlockQuery::GetEpochNo).await),
-            "get_stake_snapshots" => ls_typed(q::get_stake_snapshots(&mut self.0, ERA, SMaybe::None).await),
-            "get_utxo_by_address" => ls_typed(q::get_utxo_by_address(&mut self.0, ERA, vec![]).await),
-            "get_stake_pool_params" => ls_typed(q::get_stake_pool_params(&mut self.0, ERA, TagWrap::new(BTreeSet::new())).await),
-            "get_pool_state" => ls_typed(q::get_pool_state(&mut self.0, ERA, SMaybe::None).await),
-            "get_pool_distr" => ls_typed(q::get_pool_distr(&mut self.0, ERA, SMaybe::None).await),
-            "get_non_myopic_member_rewards" => ls_typed(q::get_non_myopic_member_rewards(&mut self.0, ERA, TagWrap::new(BTreeSet::new())).await),
-            "get_filtered_delegations_rewards" => ls_typed(q::get_filtered_delegations_rewards(&mut self.0, ERA, BTreeSet::new()).await),
-            "get_utxo_by_txin" => ls_typed(q::get_utxo_by_txin(&mut self.0, ERA, BTreeSet::new()).await),
-            "get_stake_deleg_deposits" => ls_typed(q::get_stake_deleg_deposits(&mut self.0, ERA, TagWrap::new(BTreeSet::new())).await),
-            "get_drep_state" => ls_typed(q::get_drep_state(&mut self.0, ERA, TagWrap::new(BTreeSet::new())).await),
-            "get_drep_stake_distr" => ls_typed(q::get_drep_stake_distr(&mut self.0, ERA, TagWrap::new(BTreeSet::new())).await),
-            "get_filtered_vote_delegatees" => ls_typed(q::get_filtered_vote_delegatees(&mut self.0, ERA, BTreeSet::new()).await),
-            "get_spo_stake_distr" => ls_typed(q::get_spo_stake_distr(&mut self.0, ERA, TagWrap::new(BTreeSet::new())).await),
-            "get_proposals" => ls_typed(q::get_proposals(&mut self.0, ERA, TagWrap::new(BTreeSet::new())).await),
-            "get_committee_members_state" => ls_typed(q::get_committee_members_state(&mut self.0, ERA, TagWrap::new(BTreeSet::new()), TagWrap::new(BTreeSet::new()), TagWrap::new(BTreeSet::new())).await),
-            "get_ledger_peer_snapshot" => ls_typed(q::get_ledger_peer_snapshot(&mut self.0, ERA, q::LedgerPeerSnapshotKind::Big).await),
-            "get_pool_distr_v2" => ls_typed(q::get_pool_distr_v2(&mut self.0, ERA, SMaybe::None).await),
-            "get_dreps_delegations" => ls_typed(q::get_dreps_delegations(&mut self.0, ERA, TagWrap::new(BTreeSet::new())).await),
-            "get_current_pparams" => ls_typed(q::get_current_pparams(&mut self.0, ERA).await),
-            "get_block_epoch_number" => ls_typed(q::get_block_epoch_number(&mut self.0, ERA).await),
-            "get_stake_distribution" => ls_typed(q::get_stake_distribution(&mut self.0, ERA).await),
-            "get_genesis_config" => ls_typed(q::get_genesis_config(&mut self.0, ERA).await),
-            "get_utxo_whole" => ls_typed(q::get_utxo_whole(&mut self.0, ERA).await),
-            "get_constitution" => ls_typed(q::get_constitution(&mut self.0, ERA).await),
-            "get_gov_state" => ls_typed(q::get_gov_state(&mut self.0, ERA).await),
-            "get_account_state" => ls_typed(q::get_account_state(&mut self.0, ERA).await),
-            "get_future_protocol_params" => ls_typed(q::get_future_protocol_params(&mut self.0, ERA).await),
-            "get_ratify_state" => ls_typed(q::get_ratify_state(&mut self.0, ERA).await),
-            "get_big_ledger_snapshot" => ls_typed(q::get_big_ledger_snapshot(&mut self.0, ERA).await),
-            "get_proposed_pparams_updates" => ls_typed(q::get_proposed_pparams_updates(&mut self.0, ERA).await),
-            "get_stake_distribution_v2" => ls_typed(q::get_stake_distribution_v2(&mut self.0, ERA).await),
+            "query" => ls_typed("query", self.0.query::<u8, u8>(0u8).await),
+            "get_chain_point" => ls_typed("get_chain_point", q::get_chain_point(&mut self.0).await),
+            "get_current_era" => ls_typed("get_current_era", q::get_current_era(&mut self.0).await),
+            "get_system_start" => ls_typed("get_system_start", q::get_system_start(&mut self.0).await),
+            "get_chain_block_no" => ls_typed("get_chain_block_no", q::get_chain_block_no(&mut self.0).await),
+            "get_cbor" => ls_typed("get_cbor", q::get_cbor(&mut self.0, ERA, q::BlockQuery::GetEpochNo).await),
+            "get_stake_snapshots" => ls_typed("get_stake_snapshots", q::get_stake_snapshots(&mut self.0, ERA, SMaybe::None).await),
+            "get_utxo_by_address" => ls_typed("get_utxo_by_address", q::get_utxo_by_address(&mut self.0, ERA, vec![]).await),
+            "get_stake_pool_params" => ls_typed("get_stake_pool_params", q::get_stake_pool_params(&mut self.0, ERA, TagWrap::new(BTreeSet::new())).await),
+            "get_pool_state" => ls_typed("get_pool_state", q::get_pool_state(&mut self.0, ERA, SMaybe::None).await),
+            "get_pool_distr" => ls_typed("get_pool_distr", q::get_pool_distr(&mut self.0, ERA, SMaybe::None).await),
+            "get_non_myopic_member_rewards" => ls_typed("get_non_myopic_member_rewards", q::get_non_myopic_member_rewards(&mut self.0, ERA, TagWrap::new(BTreeSet::new())).await),
+            "get_filtered_delegations_rewards" => ls_typed("get_filtered_delegations_rewards", q::get_filtered_delegations_rewards(&mut self.0, ERA, BTreeSet::new()).await),
+            "get_utxo_by_txin" => ls_typed("get_utxo_by_txin", q::get_utxo_by_txin(&mut self.0, ERA, BTreeSet::new()).await),
+            "get_stake_deleg_deposits" => ls_typed("get_stake_deleg_deposits", q::get_stake_deleg_deposits(&mut self.0, ERA, TagWrap::new(BTreeSet::new())).await),
+            "get_drep_state" => ls_typed("get_drep_state", q::get_drep_state(&mut self.0, ERA, TagWrap::new(BTreeSet::new())).await),
+            "get_drep_stake_distr" => ls_typed("get_drep_stake_distr", q::get_drep_stake_distr(&mut self.0, ERA, TagWrap::new(BTreeSet::new())).await),
+            "get_filtered_vote_delegatees" => ls_typed("get_filtered_vote_delegatees", q::get_filtered_vote_delegatees(&mut self.0, ERA, BTreeSet::new()).await),
+            "get_spo_stake_distr" => ls_typed("get_spo_stake_distr", q::get_spo_stake_distr(&mut self.0, ERA, TagWrap::new(BTreeSet::new())).await),
+            "get_proposals" => ls_typed("get_proposals", q::get_proposals(&mut self.0, ERA, TagWrap::new(BTreeSet::new())).await),
+            "get_committee_members_state" => ls_typed("get_committee_members_state", q::get_committee_members_state(&mut self.0, ERA, TagWrap::new(BTreeSet::new()), TagWrap::new(BTreeSet::new()), TagWrap::new(BTreeSet::new())).await),
+            "get_ledger_peer_snapshot" => ls_typed("get_ledger_peer_snapshot", q::get_ledger_peer_snapshot(&mut self.0, ERA, q::LedgerPeerSnapshotKind::Big).await),
+            "get_pool_distr_v2" => ls_typed("get_pool_distr_v2", q::get_pool_distr_v2(&mut self.0, ERA, SMaybe::None).await),
+            "get_dreps_delegations" => ls_typed("get_dreps_delegations", q::get_dreps_delegations(&mut self.0, ERA, TagWrap::new(BTreeSet::new())).await),
+            "get_current_pparams" => ls_typed("get_current_pparams", q::get_current_pparams(&mut self.0, ERA).await),
+            "get_block_epoch_number" => ls_typed("get_block_epoch_number", q::get_block_epoch_number(&mut self.0, ERA).await),
+            "get_stake_distribution" => ls_typed("get_stake_distribution", q::get_stake_distribution(&mut self.0, ERA).await),
+            "get_genesis_config" => ls_typed("get_genesis_config", q::get_genesis_config(&mut self.0, ERA).await),
+            "get_utxo_whole" => ls_typed("get_utxo_whole", q::get_utxo_whole(&mut self.0, ERA).await),
+            "get_constitution" => ls_typed("get_constitution", q::get_constitution(&mut self.0, ERA).await),
+            "get_gov_state" => ls_typed("get_gov_state", q::get_gov_state(&mut self.0, ERA).await),
+            "get_account_state" => ls_typed("get_account_state", q::get_account_state(&mut self.0, ERA).await),
+            "get_future_protocol_params" => ls_typed("get_future_protocol_params", q::get_future_protocol_params(&mut self.0, ERA).await),
+            "get_ratify_state" => ls_typed("get_ratify_state", q::get_ratify_state(&mut self.0, ERA).await),
+            "get_big_ledger_snapshot" => ls_typed("get_big_ledger_snapshot", q::get_big_ledger_snapshot(&mut self.0, ERA).await),
+            "get_proposed_pparams_updates" => ls_typed("get_proposed_pparams_updates", q::get_proposed_pparams_updates(&mut self.0, ERA).await),
+            "get_stake_distribution_v2" => ls_typed("get_stake_distribution_v2", q::get_stake_distribution_v2(&mut self.0, ERA).await),
             n => panic!("harness: unknown op {n}"),
         }
     }
